@@ -49,8 +49,10 @@ inductive Actor
   deriving DecidableEq, Repr
 
 /-- one scheduler step; a choice that is not enabled is a stutter.
-`wakeAfterPush`: the eventfd write follows `push_back` inside the lock scope. `drainFirst`: the handler is `drainEvt(); process();`. -/
-def step (wakeAfterPush drainFirst : Bool) (w : W) : Actor → W
+`wakeAfterPush`: the eventfd write follows `push_back` inside the lock scope. `drainFirst`: the handler is `drainEvt(); process();`.
+`wholeBatch`: one `process()` call dispatches everything it swapped out (`processDispatchesWholeBatch`); otherwise it dispatches one
+command, hands the rest back to the queue and signals the eventfd again. -/
+def step (wakeAfterPush drainFirst wholeBatch : Bool) (w : W) : Actor → W
   | .early => if wakeAfterPush then w else { w with evt := w.evt + 1, pre := w.pre + 1 }
   | .sender =>
     match w.crit with
@@ -69,12 +71,15 @@ def step (wakeAfterPush drainFirst : Bool) (w : W) : Actor → W
       else if w.crit = .free then { w with taken := w.taken + w.cmds, cmds := 0, io := .mid } else w   -- process()
     | .mid =>
       if drainFirst then
-        (if w.crit = .free then { w with taken := w.taken + w.cmds, cmds := 0, io := .waiting } else w)  -- process()
+        (if w.crit = .free then
+          (if wholeBatch then { w with taken := w.taken + w.cmds, cmds := 0, io := .waiting }
+           else { w with taken := w.taken + min w.cmds 1, cmds := w.cmds - 1, evt := if w.cmds > 1 then w.evt + 1 else w.evt, io := .waiting })
+         else w)  -- process()
       else { w with evt := 0, io := .waiting }                                            -- drainEvt()
 
-def run (wakeAfterPush drainFirst : Bool) (w : W) : List Actor → W
+def run (wakeAfterPush drainFirst wholeBatch : Bool) (w : W) : List Actor → W
   | [] => w
-  | a :: as => run wakeAfterPush drainFirst (step wakeAfterPush drainFirst w a) as
+  | a :: as => run wakeAfterPush drainFirst wholeBatch (step wakeAfterPush drainFirst wholeBatch w a) as
 
 /-- the I/O thread is blocked in `epoll_wait` with nothing to wake it, and no `enqueue` call is in flight -/
 def W.Asleep (w : W) : Prop := w.io = .waiting ∧ w.evt = 0 ∧ w.crit = .free ∧ w.pre = 0
